@@ -154,6 +154,12 @@ def build3(name="SZ"):
     for n in (17, 64, 200):
         m.add("B%d" % n, Type("BIT STRING", size_c=Constraint([(("val", n), False, None)])))
     m.add("O12", Type("OCTET STRING", size_c=Constraint([(("val", 12), False, None)])))
+    # two types that refer to each other: asn1c holds the mandatory members of Pair by pointer
+    m.add("Tree", Type("CHOICE", comps=[Comp("leaf", Type("INTEGER", value_c=Constraint.simple(0, 255))), Comp("pair", Type("REF", ref="Pair")),
+                                       Comp("blob", Type("OCTET STRING"))]))
+    m.add("Pair", Type("SEQUENCE", comps=[Comp("left", Type("REF", ref="Tree")), Comp("right", Type("REF", ref="Tree"))]))
+    # an INTEGER of any size (INTEGER_t in a -fwide-types build)
+    m.add("Huge", Type("INTEGER"))
     for t in m.types.values():
         _gen._set_module(t, m)
     m.finalize()
@@ -190,6 +196,13 @@ def values3(mod, name, quick):
                 out.append(((bytes(data), bits), False))
     elif name == "O12":
         out = [(bytes(range(12)), True)] + [(bytes(range(k)), False) for k in (0, 1, 11, 13, 28)]
+    elif name == "Tree":
+        out = [(("leaf", 7), True), (("pair", {"left": ("leaf", 1), "right": ("blob", b"xyz")}), True)]
+    elif name == "Pair":
+        out = [({"left": ("leaf", 1), "right": ("leaf", 2)}, True),
+               ({"left": ("pair", {"left": ("leaf", 3), "right": ("leaf", 4)}), "right": ("blob", b"")}, True)]
+    elif name == "Huge":
+        out = [(v_, True) for v_ in (0, -1, (1 << 63) - 1, 1 << 64, -(1 << 64), 1 << 80, -(1 << 87) - 12345, (1 << 160) + 77, (1 << 255) - 19, -(1 << 300))]
     return out
 
 
